@@ -134,7 +134,7 @@ class Gen:
             if r < 0.5:
                 op = rng.choice(["+", "-", "*", "+", "-", "%", "|", "&", "^"])
                 b = self.expr(INT, sc, d - 1)
-                if op == "%" and rng.random() < 0.8:
+                if op == "%" and (rng.random() < 0.8 or not self.errors):
                     b = Lit(rng.choice([2, 3, 5, 7, -3]))
                 return Bin(op, self.expr(INT, sc, d - 1), b, INT)
             if r < 0.58:
